@@ -2,6 +2,7 @@ use crate::report::Report;
 use crate::Opts;
 use serde_json::Value;
 
+pub mod c06;
 pub mod c07;
 pub mod c08;
 pub mod c10;
@@ -18,6 +19,7 @@ pub type ReplayResult = Result<Vec<String>, (Vec<String>, String, String)>;
 
 pub fn run(prop: &str, opts: &Opts) -> Vec<Report> {
     match prop {
+        "C06" => c06::run(opts),
         "C07" => c07::run(opts),
         "C08" => c08::run(opts),
         "C10" => c10::run(opts),
@@ -35,6 +37,7 @@ pub fn run(prop: &str, opts: &Opts) -> Vec<Report> {
 
 pub fn replay(prop: &str, case: &Value) -> ReplayResult {
     match prop {
+        "C06" => c06::replay(case),
         "C07" => c07::replay(case),
         "C08" => c08::replay(case),
         "C10" => c10::replay(case),
